@@ -10,6 +10,7 @@ from typing import Optional
 from typing import Tuple
 
 from ..absctx import Unsupported
+from ..absint import AbsRaise
 from ..absint import Interp
 from ..absval import *  # noqa: F403
 from ..harness import Run
@@ -27,7 +28,7 @@ KINDS = SCALARS + ["list", "dict"]
 
 # --------------------------------------------------------------------- setup
 def make_env(it: Interp, model: Model, nondet: Optional[bool] = False) -> Inst:
-    env = it.new_inst(model.cls("environment.JSONPathEnvironment"), "env")
+    env = it.harness_inst(model.cls("environment.JSONPathEnvironment"), "env")
     if nondet is not None:
         env.attrs["nondeterministic"] = Const(nondet)
     lim = it.new_int("max_recursion_depth", 1)
@@ -35,20 +36,74 @@ def make_env(it: Interp, model: Model, nondet: Optional[bool] = False) -> Inst:
     return env
 
 
+def compile_time_config(it: Interp, env: Inst) -> Dict[str, Any]:
+    return it.compile_time_config(env)
+
+
 def make_selector(it: Interp, model: Model, cls_qual: str, env: Inst) -> Inst:
+    """A selector as its real constructor builds it from symbolic arguments (so attributes precomputed in
+    __init__ exist and are consistent), with the rule-visible attributes being the harness's own objects, and
+    with every attribute that a non-constructor method writes replaced by an unknown (state left by earlier
+    calls).  Paths on which the constructor refuses the arguments are discarded."""
+    from .. import effects
+    from .. import harness as _h
+    from ..absctx import Infeasible
+
     ci = model.cls(cls_qual)
-    s = it.new_inst(ci, "selector")
-    s.attrs["env"] = env
-    s.attrs["token"] = it.new_opaque("selector.token", model.cls("tokens.Token"))
+    tok = it.new_opaque("selector.token", model.cls("tokens.Token"))
     slots = set()
     for c in ci.mro():
         slots.update(c.slots() or [])
+    vals: Dict[str, Any] = {}
     if "name" in slots:
-        s.attrs["name"] = it.new_str("name")
+        vals["name"] = it.new_str("name")
     if "index" in slots:
-        s.attrs["index"] = it.new_int("index")
+        vals["index"] = it.new_int("index")
+    slv = None
     if "slice" in slots:
-        s.attrs["slice"] = SliceV(it.new_opaque("start"), it.new_opaque("stop"), it.new_opaque("step"), it.ctx.new_id())
+        slv = SliceV(it.new_opaque("start"), it.new_opaque("stop"), it.new_opaque("step"), it.ctx.new_id())
+        vals["slice"] = slv
+    s = None
+    init = ci.find_method("__init__")
+    if init is not None and init.cls is not None and init.cls.name != "JSONPathSelector":
+        a = init.node.args
+        params = [x.arg for x in a.args[1:] + a.kwonlyargs]
+        n_def = len(a.defaults)
+        required = [x.arg for x in (a.args[1:][: len(a.args[1:]) - n_def] if n_def else a.args[1:])] + [x.arg for x, d in zip(a.kwonlyargs, a.kw_defaults) if d is None]
+        kwargs: Dict[str, Any] = {}
+        for p in params:
+            if p == "env":
+                kwargs[p] = env
+            elif p == "token":
+                kwargs[p] = tok
+            elif p in vals and p != "slice":
+                kwargs[p] = vals[p]
+            elif slv is not None and p in ("start", "stop", "step"):
+                kwargs[p] = getattr(slv, p)
+            elif p == "expression":
+                kwargs[p] = it.new_opaque("selector.expression", model.cls("filter_expressions.FilterExpression"))
+        if all(r in kwargs for r in required):
+            saved, _h.MONITOR = _h.MONITOR, None
+            # the environment's configuration is public and mutable: what it was when the query was compiled says
+            # nothing about what it is when the query is applied, so the constructor sees unrelated values
+            cfg_saved = compile_time_config(it, env)
+            try:
+                s = it.instantiate(ci, [], kwargs, None)
+            except AbsRaise:
+                raise Infeasible() from None  # the constructor refuses these arguments: no such selector exists
+            except Unsupported:
+                s = None
+            finally:
+                _h.MONITOR = saved
+                env.attrs.clear()
+                env.attrs.update(cfg_saved)
+    if s is None:
+        s = it.harness_inst(ci, "selector")
+    s.attrs["env"] = env
+    s.attrs["token"] = tok
+    keep_expr = s.attrs.get("expression")
+    s.attrs.update(vals)
+    it.havoc_written(s, "selector")
     return s
 
 
